@@ -238,6 +238,18 @@ fn core_plan(prop: &str, thorough: bool, seed: u64, all_cases: &[CaseRec], tidx:
                     };
                     replay_case(case, &inst, &cfg, &want_prop, &mut r, &mut st);
                 }
+                // public protocols: every single-bit neighbour of the signer's public key bytes (most are not
+                // valid keys: refusing the key is a failure to verify, as the property demands); core layer
+                if case.mint.pr.ends_with("public") && !case.mint.pr.starts_with("v1") {
+                    let nbits = if case.mint.pr.starts_with("v3") { 49 * 8 } else { 32 * 8 };
+                    let step = if thorough || !is_slow { 1 } else { 4 };
+                    for bit in (0..nbits).step_by(step).chain(0..8) {
+                        let spec = InstSpec { msg_len: 20, msg_class: bit, json_msg: true, pair_idx: bit, k2: K2Mode::PubBitNeighbour(bit), k1_special: 0, seed_special: 0 };
+                        let inst = make_instance(&spec, &pairs, &mut r);
+                        let cfg = ReplayCfg { layers: vec![Layer::Core], budget: Budget { bits: 0, chars: 0, other: 0 }, max_tokens: 1, offdiag_tokens: 0, max_violations: 20 };
+                        replay_case(case, &inst, &cfg, &want_prop, &mut r, &mut st);
+                    }
+                }
             }
         }
         "C05" | "C06" | "C07" => {
